@@ -551,4 +551,15 @@ theorem readHash_exportFile (hash : Bytes) (c k r : Option Bytes) : readHash (ex
   rw [this]
   exact V1.goB64Decode_enc hash
 
+/-- **what gopki writes, gopki imports**: certificate and key come back as written; a request comes back exactly when no key
+    stands in the file (with both, `importPem` keeps the key only — the entity then continues with its key) -/
+theorem import_exportFile (hash c : Bytes) (k r : Option Bytes) :
+    importParts (readAll 5 (exportFile hash (some c) k r)).1 = ⟨some c, k, if k.isSome then none else r⟩ := by
+  rw [readAll_exportFile]
+  have h1 : ¬ (tPrivateKey = tCertificate) := by decide
+  have h2 : ¬ (tRequest = tCertificate) := by decide
+  have h3 : ¬ (tPrivateKey = tRequest) := by decide
+  have h4 : isKeyType tPrivateKey = true := by decide
+  cases k <;> cases r <;> simp [importParts, readParts, h1, h2, h3, h4]
+
 end Pem
